@@ -128,8 +128,19 @@ pub fn run(rep: &mut StageReport, tier: &str, _seed: u64) {
             // --- impostor servers: they accept this deployment's clients (client CA = CA-A) but present a server
             // certificate that does not chain to CA-A, so the *client's* verification is the only line of defence.
             // CA-B is in this process' platform trust store (SSL_CERT_FILE above).
+            // the client side configured from PEM files (CA, certificate and PKCS#8 key)
+            let (cca, ccert, ckey) = (pem_dir.join("client-ca.pem"), pem_dir.join("client-cert.pem"), pem_dir.join("client-key.pem"));
+            let _ = std::fs::write(&cca, pem("CERTIFICATE", &read_der(&a.client_ca()).unwrap()));
+            let _ = std::fs::write(&ccert, pem("CERTIFICATE", &read_der(&a.client_cert()).unwrap()));
+            let _ = std::fs::write(&ckey, pem("PRIVATE KEY", &read_der(&a.client_key()).unwrap()));
+            let (bcert, bkey) = (pem_dir.join("client-b-cert.pem"), pem_dir.join("client-b-key.pem"));
+            let _ = std::fs::write(&bcert, pem("CERTIFICATE", &read_der(&b.client_cert()).unwrap()));
+            let _ = std::fs::write(&bkey, pem("PRIVATE KEY", &read_der(&b.client_key()).unwrap()));
+            v.push(("lib (PEM files): client cert from trusted CA → server A".to_string(), true, lib_attempt(&sa.endpoint(), &cca, &ccert, &ckey, &t(26)).await));
+            v.push(("lib (PEM files): client cert from other CA (B) → server A".to_string(), false, lib_attempt(&sa.endpoint(), &cca, &bcert, &bkey, &t(27)).await));
             match start_server_with(&a.server_ca(), &b.server_cert(), &b.server_key()) {
                 Ok(si) => {
+                    v.push(("lib (PEM files): client trusting CA-A only → impostor server whose certificate chains to CA-B".to_string(), false, lib_attempt(&si.endpoint(), &cca, &ccert, &ckey, &t(28)).await));
                     v.push(("lib: client trusting CA-B with cert A → impostor server (cert from CA-B, accepts CA-A clients): control, must work".to_string(), true, lib_attempt(&si.endpoint(), &b.client_ca(), &a.client_cert(), &a.client_key(), &t(18)).await));
                     v.push(("lib: client trusting CA-A only → impostor server whose certificate chains to CA-B, a CA of the host's platform trust store".to_string(), false, lib_attempt(&si.endpoint(), &a.client_ca(), &a.client_cert(), &a.client_key(), &t(19)).await));
                     si.stop();
